@@ -286,6 +286,9 @@ def run_units(tag, harnesses, per_harness_timeout, jobs=8, keep=False, modules=N
         info["verify_s"] = round(info["verify_s"] + secs, 1)
         info["kani_rc"] = rc
         parse_parallel(out, results)
+        if os.environ.get("VERIF_DUMP_RAW"):   # debugging aid: raw verifier output of this batch
+            os.makedirs(os.environ["VERIF_DUMP_RAW"], exist_ok=True)
+            open(os.path.join(os.environ["VERIF_DUMP_RAW"], "kani_batch_%d.log" % int(time.time())), "w").write(out)
         logs.append(out)
     info["cmd"] = " ; ".join(cmds)
     for r in results.values():
